@@ -184,7 +184,10 @@ def srange(draw, min_count=3, max_count=40, lo=-6.0, hi=8.0):
 def srange_array(sr):
     import numpy as np
 
-    return sr["start"] + sr["step"] * np.arange(sr["count"], dtype="float64")
+    a = sr["start"] + sr["step"] * np.arange(sr["count"], dtype="float64")
+    if sr.get("perm") is not None:
+        a = a[np.array(sr["perm"], dtype=int)]  # the same candidates in another order (descending, shuffled)
+    return a
 
 
 pvals = st.one_of(st.sampled_from([0.5, 0.1, 0.9, 0.01, 0.99, 0.95, 0.05]), st.floats(0.01, 0.99))
